@@ -1158,7 +1158,11 @@ void analyserCells()
         return ofPtr(v->message(v->messageCount())); }, prepVal);
     NA("Parser::parseModel(string)", "document text, not a lookup name: covered by C01");
     NA("Issue::verifCreate(ReferenceRule,Level,string)", "verification hook, free text description");
-    NA("Generator::setProfile(GeneratorProfilePtr)", "profile object, not an entity (a null-profile cell is included for information)");
+    NA("AnalyserEquationAst::setValue(string)", "free text");
+    NA("AnalyserEquationAst::setVariable(VariablePtr)", "plain setter of an optional link of an AST node; null is the legal 'none' value; not an object-model or service entry point");
+    NA("AnalyserEquationAst::setParent(AnalyserEquationAstPtr)", "plain setter of an optional link of an AST node");
+    NA("AnalyserEquationAst::setLeftChild(AnalyserEquationAstPtr)", "plain setter of an optional link of an AST node");
+    NA("AnalyserEquationAst::setRightChild(AnalyserEquationAstPtr)", "plain setter of an optional link of an AST node");
 }
 
 const std::vector<Cell> &cells()
